@@ -56,6 +56,8 @@ _sstep = st.one_of(
     st.tuples(st.just("canary"), st.booleans()),
     st.tuples(st.just("train")), st.tuples(st.just("inspect")), st.tuples(st.just("inspect")), st.tuples(st.just("flag")), st.tuples(st.just("updated")),
     st.tuples(st.just("tolerate"), st.sampled_from(VIOLATION_PATTERNS)),
+    st.tuples(st.just("rule"), st.sampled_from(["always", "recent-update", "few-violations"]), st.sampled_from(LEVELS)),
+    st.tuples(st.just("rule"), st.just("always"), st.just("CONFIRMED")),
 ).map(list)
 
 
@@ -299,6 +301,13 @@ def _system(case, out):
                     out.nontrivial = True
             elif kind == "updated":
                 sysm.mark_agent_updated("a")
+            elif kind == "rule":
+                from operon_ai.surveillance.treg import SuppressionRule
+                from operon_ai.surveillance.types import ThreatLevel
+                cond = {"always": (lambda r, rec: True), "recent-update": (lambda r, rec: rec.recent_update),
+                        "few-violations": (lambda r, rec: len(r.violations) <= 1)}[step[1]]
+                sysm.treg.rules.append(SuppressionRule(name="rule-%d" % i, condition=cond, max_severity=getattr(ThreatLevel, step[2])))
+                out.nontrivial = True
             elif kind == "tolerate":
                 rec = sysm.treg.get_record("a")
                 if rec is not None:
